@@ -21,9 +21,9 @@ def op_to_coq(o):
     n = o.get("n", 0)
     a = o.get("a", 0)
     if k in KOP:
-        return "%s (kb %d %d)" % (KOP[k], a, n)
+        return "%s (kb %d%%Z %d)" % (KOP[k], a, n)
     if k == "WY":
-        return "WByte (kbyte %d)" % a
+        return "WByte (kbyte %d%%Z)" % a
     if k == "FL":
         return "WFlush"
     if k in KRD:
